@@ -46,6 +46,7 @@ let run_ops ops (find : 'st -> z -> z option res) (ins : ('st -> (z * z) -> 'st 
                  | Ok ((t, found), v) -> st := t; out := (if found then "F:" ^ hex_of_z v else "I") :: !out
                  | Throw -> out := "throw" :: !out; raise Exit
                  | OutOfFuel -> out := "OUT-OF-FUEL" :: !out; raise Exit)
+       | 'r' -> out := "r" :: !out      (* Relocate: the table's memory moves; the model's table is a value *)
        | 'q' | 'm' -> (match find !st a with
                  | Ok (Some v) -> out := hex_of_z v :: !out
                  | Ok None -> out := "-" :: !out
